@@ -54,7 +54,8 @@ CONTRACTS = {
     (V_, 'EdgeVars.__call__'): {
         'assumed': 'group call contract (C11): e(u, None) / e(None, v) are the variables of the edges at u / at v, non-zero identifiers',
         'params': {}, 'returns': 'iseq',
-        'requires': ['len(index) == 2', '(index[0] is None) != (index[1] is None)',
+        'supports': ['len(index) == 2', '(index[0] is None) != (index[1] is None)'],
+        'requires': [
                      'implies(index[1] is None, 1 <= index[0] and index[0] <= self.n)',
                      'implies(index[0] is None, 1 <= index[1] and index[1] <= self.m)'],
         'ensures': ['implies(index[1] is None, result == rowlits(self.gid, index[0]))',
